@@ -148,16 +148,16 @@ func runScenario(ctx *hx.Ctx, w *crashsim.World, scn *crashsim.Scenario, source 
 		inHook = true
 		defer func() { inHook = false }()
 		write := idx - n.Base
+		d0, w0 := n.Eng.Digest(), n.Eng.Len()
 		best, fin := observe(n, &prevFin, col, fmt.Sprintf("before write %d", write), write)
 		views = append(views, view{hx.HexN(best[:]), hx.HexN(fin[:])})
-		d0 := n.Eng.Digest()
 		for _, rev := range []string{"best", "justified", "finalized", revisions(rnd, snapshotIDs())} {
 			if err := api.Queries(rev, accs[rnd.Intn(len(accs))].Address, contract); err != nil {
 				col.add("query-fails", fmt.Sprintf("before write %d: %v", write, err), write)
 			}
 		}
-		if d1 := n.Eng.Digest(); d0 != d1 {
-			col.add("query-writes", fmt.Sprintf("before write %d: the store changed while only read-only operations ran", write), write)
+		if d1, w1 := n.Eng.Digest(), n.Eng.Len(); d0 != d1 || w0 != w1 {
+			col.add("query-writes", fmt.Sprintf("before write %d: %d store write(s) were issued (content changed: %v) while only read-only operations ran", write, w1-w0, d0 != d1), write)
 		}
 	}
 	// ---- the importer
@@ -224,7 +224,7 @@ func runScenario(ctx *hx.Ctx, w *crashsim.World, scn *crashsim.Scenario, source 
 			continue
 		}
 		capi := cn.NewAPI()
-		d0 := eng.Digest()
+		d0, w0 := eng.Digest(), eng.Len()
 		for _, rev := range []string{"best", "justified", "finalized"} {
 			if err := capi.Queries(rev, accs[0].Address, contract); err != nil {
 				col.add("query-fails", fmt.Sprintf("crash image at write %d: %v", k-n.Base, err), k-n.Base)
@@ -233,8 +233,8 @@ func runScenario(ctx *hx.Ctx, w *crashsim.World, scn *crashsim.Scenario, source 
 		if _, err := cn.BFT.Justified(); err != nil {
 			col.add("justified-error", fmt.Sprintf("crash image at write %d: %v", k-n.Base, err), k-n.Base)
 		}
-		if d1 := eng.Digest(); d0 != d1 {
-			col.add("query-writes", fmt.Sprintf("crash image at write %d (block stored, quality record not yet): the store changed while only read-only operations ran", k-n.Base), k-n.Base)
+		if d1, w1 := eng.Digest(), eng.Len(); d0 != d1 || w0 != w1 {
+			col.add("query-writes", fmt.Sprintf("crash image at write %d (block stored, quality record not yet): %d store write(s) (content changed: %v) while only read-only operations ran", k-n.Base, w1-w0, d0 != d1), k-n.Base)
 		}
 		cn.Close()
 	}
@@ -247,6 +247,9 @@ func runScenario(ctx *hx.Ctx, w *crashsim.World, scn *crashsim.Scenario, source 
 	}
 	report := func(class, msg string, write int, found bool) {
 		ctx.Violation(class, msg, replayDoc{Scenario: scn, Write: write, Note: source}, found)
+	}
+	for _, f := range col.fs {
+		report(f.class, f.msg, f.write, true)
 	}
 	mv := strings.Fields(ans[len(ans)-2])
 	if len(mv) != len(views) {
@@ -262,9 +265,6 @@ func runScenario(ctx *hx.Ctx, w *crashsim.World, scn *crashsim.Scenario, source 
 	}
 	if ans[len(ans)-1] != "0" {
 		report("model-query-writes", "the model's read-only operations issue "+ans[len(ans)-1]+" writes", -1, false)
-	}
-	for _, f := range col.fs {
-		report(f.class, f.msg, f.write, true)
 	}
 	total := 0
 	for _, o := range observations {
